@@ -25,12 +25,13 @@ RULE = ('directed: every public callable of the ten modules (enumerated from the
         'public methods of public classes) x its registered call specifications x argument forms x 3 seeds; ambient: purity wrapper '
         'on all those callables during seeded filter schedules / integrator histories (and the repository test-suite in thorough); '
         'non-trivial = a call whose argument is a writable float ndarray, a table, or a repeated / re-formed call (the tests pass '
-        'fresh literals once); distinct = (callable, spec, form, seed)')
+        'fresh literals once); distinct = (callable, spec, form, seed)'
+        " Round 3: whole numbers as int64 arrays / lists of ints vs floats; labelled tables and series with their columns / labels in another order (results compared by label); tables whose time index is unnamed or named otherwise (caller's Index object must keep its name); one call history per specification: f(a), a overwritten IN PLACE, f(a) against f(fresh copy) computed beforehand; filter re-runs reuse the same Measurement objects; EstimationModel constructed from writable arrays with negative (disable) marks.")
 ASSUMPTIONS = ['documented exceptions: estimate state (transform, bias) of EstimationModel objects handed to a filter; Integrator / '
                'EstimationModel / Parameters / Turntable methods may change their own object but never their arguments',
                'Turntable.generate_imu is excluded: it raises at baseline under scipy 1.18 (test_Turntable fails in BASELINE.json)',
                'values across argument forms compared to <= 4 ulp of the result scale (spline-based synthesis: 2e4 ulp, i.e. 4e-12 relative, because memory layout changes summation order); repeats of the same form bitwise']
-REQUIRED_OBS = ['permuted_column_runs', 'integer_form_comparisons', 'index_name_runs', 'history_replays', 'module_state_checks', 'callables_enumerated', 'callables_with_spec', 'purity_checks', 'readonly_runs', 'determinism_checks',
+REQUIRED_OBS = ['stack_of_one_runs', 'permuted_column_runs', 'integer_form_comparisons', 'index_name_runs', 'history_replays', 'module_state_checks', 'callables_enumerated', 'callables_with_spec', 'purity_checks', 'readonly_runs', 'determinism_checks',
                 'form_comparisons', 'schema_checks', 'ambient_calls_checked']
 REQUIRED_CLASSES = {'all': ['directed', 'ambient']}
 MODULES = ['earth', 'error_model', 'filters', 'inertial_sensor', 'kalman', 'measurements', 'sim', 'strapdown', 'transform', 'util']
@@ -359,7 +360,8 @@ def specs(rng):
         return dict(r), schema_filter_result(r, gm, am, meas)
     mk_g = lambda: inertial_sensor.EstimationModel(bias_sd=1e-4, noise=1e-5, scale_misal_sd=[[1e-3, 0, 0], [0, 0, 0], [0, 0, 0]])      # noqa: E731
     mk_a = lambda: inertial_sensor.EstimationModel(bias_sd=1e-2, bias_walk=1e-4)      # noqa: E731
-    mk_meas = lambda: [measurements.Position(pos_data, 1.0, lever), measurements.NedVelocity(vel_data, 0.5, lever), measurements.BodyVelocity(bod_data, 0.5)]      # noqa: E731
+    # (built from copies: constructing these while the registry is assembled must not touch the fixtures the constructor specifications snapshot)
+    mk_meas = lambda: [measurements.Position(pos_data.copy(), 1.0, lever), measurements.NedVelocity(vel_data.copy(), 0.5, lever), measurements.BodyVelocity(bod_data.copy(), 0.5)]      # noqa: E731
     rev = lambda d: d[list(d.columns)[::-1]].copy()      # noqa: E731
     mk_meas_rev = lambda: [measurements.Position(rev(pos_data), 1.0, lever), measurements.NedVelocity(rev(vel_data), 0.5, lever), measurements.BodyVelocity(rev(bod_data), 0.5)]      # noqa: E731
 
@@ -677,6 +679,19 @@ def extra_forms(name, call, sd, where, bump):
                                        f'different values than the same numbers as floats: {bad[:3]}'))
                 except Exception as e:
                     out.append(vio('form_rejected', f'{where}: integer-typed form raised {type(e).__name__}: {e}'))
+    # ---- a stack of ONE point (shape (1, k)): neither the single nor the general stacked path
+    if call.single is not None and call.compare:
+        try:
+            _, r_all = invoke(call, [clone(a) for a in call.args], sd)
+            args = [np.array(a[:1], copy=True) if i in call.vary and isinstance(a, np.ndarray) and a.ndim >= 1 else clone(a) for i, a in enumerate(call.args)]
+            _, r_one = invoke(call, args, sd)
+            first = (lambda r: tuple(np.asarray(x)[:1] for x in r)) if isinstance(r_all, tuple) else (lambda r: np.asarray(r)[:1])
+            bump('stack_of_one_runs')
+            bad = purity.compare_flat(purity.flatten(first(r_all)), purity.flatten(r_one if not isinstance(r_one, tuple) else tuple(np.asarray(x) for x in r_one)), ulp=call.ulp)
+            if bad:
+                out.append(vio('single_vs_stacked', f'{where}: a stack holding one point gives something else than the first row of the full stack: {bad[:3]}'))
+        except Exception as e:
+            out.append(vio('form_rejected', f'{where}: a stack holding one point raised {type(e).__name__}: {e}'))
     # ---- label-addressed tables with their columns in another order
     if call.labelled and call.compare:
         prng = np.random.Generator(np.random.PCG64(len(where)))
